@@ -48,7 +48,7 @@ def _state_fact(fact, var, member):
     return False
 
 
-def _inactive(ctx):
+def _inactive(ctx, rule='C08.1'):
     cell = ctx.index.get_class(K.SCHED, 'Cell')
     func = cell.methods.get('_handle_inactive_servers')
     ctx.require(func is not None, 'Cell._handle_inactive_servers')
@@ -75,7 +75,7 @@ def _inactive(ctx):
     rnode = removes[0][0]
     rloop = K.enclosing_for(graph, rnode)
     lst = N.txt(rloop.ast.iter) if rloop is not None else None
-    ctx.ob('C08.1', func, rnode, rloop is not None and
+    ctx.ob(rule, func, rnode, rloop is not None and
            isinstance(rloop.ast.iter, ast.Name),
            'the only removal iterates the collected list %s' % lst,
            construct='removal ranges over the collected list')
@@ -96,10 +96,10 @@ def _inactive(ctx):
                                t for t, _c in f.key[2]) == sorted(
                                    ['expires_at', 'time.time()']) and
                            dict(f.key[2])['expires_at'] > 0]
-                ctx.ob('C08.1', func, node, down,
+                ctx.ob(rule, func, node, down,
                        'collected only from a server whose state is down',
                        construct='%s [state down]' % node.text(50))
-                ctx.ob('C08.1', func, node, bool(expired),
+                ctx.ob(rule, func, node, bool(expired),
                        'collected only when expires_at <= now; facts: %s' %
                        sorted(N.show(f) for f in facts[node]),
                        construct='%s [expired]' % node.text(50))
@@ -116,10 +116,10 @@ def _inactive(ctx):
                     '%s.unschedule' % N.txt(comp.generators[0].target)] and \
                 N.txt(comp.generators[0].iter).startswith(
                     '%s.apps' % srv)
-            ctx.ob('C08.1', func, node, frozen,
+            ctx.ob(rule, func, node, frozen,
                    'bulk collection only from a server whose state is '
                    'frozen', construct='%s [state frozen]' % node.text(50))
-            ctx.ob('C08.1', func, node, okc,
+            ctx.ob(rule, func, node, okc,
                    'from a frozen server exactly the instances flagged '
                    'unschedule', construct='%s [unschedule only]' %
                    node.text(50))
@@ -135,7 +135,7 @@ def _inactive(ctx):
             none = any(f.key[0] == 'is' and f.key[3] and
                        f.key[1].endswith('.data_retention_timeout') and
                        f.key[2] == 'None' for f in facts[node])
-            ctx.ob('C08.1', func, node, val.value == 0 and none,
+            ctx.ob(rule, func, node, val.value == 0 and none,
                    "'no retention' means immediately (0) and only then")
         else:
             lin = N.linear(val)
@@ -145,7 +145,7 @@ def _inactive(ctx):
                               if any(k.endswith('.data_retention_timeout')
                                      for k in lin) else '?'} and \
                 all(v == 1 for v in lin.values())
-            ctx.ob('C08.1', func, node, ok,
+            ctx.ob(rule, func, node, ok,
                    'expiry = since + data_retention_timeout: %s' %
                    N.txt(val))
     return cell, nz
